@@ -236,10 +236,13 @@ func (mp *memPart) mustFlush(fileSystem fs.FileSystem, path string) {
 	}
 
 	mp.tagType.mustWriteTagType(fileSystem, path)
+	// Make the directory entries of the data files durable BEFORE metadata.json can appear:
+	// metadata.json is what marks the part as complete at the next start, and its rename may
+	// reach the disk before the still un-synced entries of the files it vouches for.
+	fileSystem.SyncPath(path)
 	mp.partMetadata.mustWriteMetadata(fileSystem, path)
 	// No SyncPath: mustWriteMetadata goes through WriteAtomic which already
-	// fsyncs the parent directory after rename, covering the dirent changes
-	// for all data files written above.
+	// fsyncs the parent directory after rename.
 }
 
 func uncompressedDataPointSizeBytes(index int, dps *dataPoints) uint64 {
